@@ -6,7 +6,7 @@ From BS Require Import Base.Arith Model.Term Model.Propensity Model.Interface Mo
 Import ListNotations.
 
 Section Structure.
-  Context {F : Type} (A : Arith F) (eps9 eps7 : F).
+  Context {F : Type} (A : Arith F) (pi2 : F) (eps9 eps7 : F).
   Variable l : lin F.
   Notation s := (ln_sim l).
 
@@ -31,7 +31,7 @@ Section Structure.
   Proof. intros H1 H2. apply Forall2_app; auto. induction k; simpl; constructor; auto. Qed.
 
   Lemma lssa_iter_inv dt final t_init V_init u seen st st' : linv seen st ->
-    lssa_iter A eps9 eps7 l dt final t_init V_init u st = Done st' ->
+    lssa_iter A pi2 eps9 eps7 l dt final t_init V_init u st = Done st' ->
     exists seen', incl seen seen' /\ (forall v, In v seen' -> In v seen \/ fleb A v (f0 A) = false) /\ linv seen' st'.
   Proof.
     intros (Hlen & HV & Hrows & Hstop) H. unfold lssa_iter in H.
@@ -39,14 +39,16 @@ Section Structure.
     destruct (apply_rules A (sm_rules s) (Some (ls_V st)) (ls_x st, ls_p st) (ls_time st) dt (ls_rule_step st)) as [x1 p1] eqn:Er.
     assert (Hx1 : row_ok seen x1 (ls_V st)).
     { split; auto. exists (ls_x st), (ls_p st), (ls_time st), (ls_rule_step st), dt. rewrite Er. reflexivity. }
-    destruct (0 <=? first_true (fun r => krule_check A eps9 r x1 p1 (ls_time st) (ls_V st)) (ln_krules l) 0)%Z.
+    destruct (first_true (fun r => krule_check A pi2 eps9 r x1 p1 (ls_time st) (ls_V st) u) (ln_krules l) 0%Z (ls_pos st)) as [dead posa].
+    destruct (first_true (fun r => drule_check A pi2 eps9 r x1 p1 (ls_time st) (ls_V st) t_init V_init u) (ln_drules l) 0%Z posa) as [divd posb].
+    destruct (0 <=? dead)%Z.
     { inversion H; subst; clear H. exists seen. split; [apply incl_refl|]. split; [intros v0 Hv0; left; exact Hv0|]. split; [exact Hlen|split; [exact HV|split; [exact Hrows|intros _; exact Hx1]]]. }
-    destruct (0 <=? first_true (fun r => drule_check A eps9 r x1 p1 (ls_time st) (ls_V st) t_init V_init) (ln_drules l) 0)%Z.
+    destruct (0 <=? divd)%Z.
     { inversion H; subst; clear H. exists seen. split; [apply incl_refl|]. split; [intros v0 Hv0; left; exact Hv0|]. split; [exact Hlen|split; [exact HV|split; [exact Hrows|intros _; exact Hx1]]]. }
     set (props := lin_props A l x1 p1 (ls_V st) (ls_time st)) in *.
     set (Lambda := array_sum A props) in *.
-    destruct (if feqb A Lambda (f0 A) then ((if fltb A (fadd A (ls_time st) dt) (ls_next_q st) then ls_next_q st else fadd A (ls_time st) dt), true, ls_pos st)
-              else let '(tau, pos') := exponential_rv A Lambda u (ls_pos st) in (fadd A (ls_time st) tau, false, pos'))
+    destruct (if feqb A Lambda (f0 A) then ((if fltb A (fadd A (ls_time st) dt) (ls_next_q st) then ls_next_q st else fadd A (ls_time st) dt), true, posb)
+              else let '(tau, pos') := exponential_rv A Lambda u posb in (fadd A (ls_time st) tau, false, pos'))
       as [[proposed rs] pos1].
     destruct (if (fltb A (ls_next_q st) proposed || feqb A Lambda (f0 A) && fleb A (ls_next_q st) proposed) && fltb A (ls_next_q st) final
               then (ls_next_q st, fadd A (ls_next_q st) dt, true, true)
@@ -63,7 +65,7 @@ Section Structure.
     { intros V'. split; [exact Hlen'|]. split; [left; reflexivity|]. split; [|cbn; discriminate].
       apply (Forall2_mono seen); [apply incl_tl, incl_refl|exact Hrows']. }
     destruct toq.
-    - set (V' := apply_volume_rules A (ln_vrules l) x1 p1 (ls_V st) time' dt) in *.
+    - destruct (apply_volume_rules A pi2 (ln_vrules l) x1 p1 (ls_V st) time' dt u pos1) as [V' posv].
       destruct (fleb A V' (f0 A)) eqn:EV; [discriminate|]. inversion H; subst; clear H.
       exists (V' :: seen). split; [apply incl_tl, incl_refl|]. split; [intros v0 [<-|Hv0]; [right; exact EV|left; exact Hv0]|apply Hgrow].
     - destruct (sample_discrete A props Lambda u pos1) as [choice pos2].
@@ -81,7 +83,7 @@ Section Structure.
   Qed.
 
   Lemma lssa_loop_inv dt final t_init V_init u fuel : forall seen st st', linv seen st ->
-    lssa_loop A eps9 eps7 fuel l dt final t_init V_init u st = Done st' ->
+    lssa_loop A pi2 eps9 eps7 fuel l dt final t_init V_init u st = Done st' ->
     exists seen', incl seen seen' /\ (forall v, In v seen' -> In v seen \/ fleb A v (f0 A) = false) /\ linv seen' st'.
   Proof.
     induction fuel as [|fuel IH]; intros seen st st' Hinv H; simpl in H.
@@ -89,7 +91,7 @@ Section Structure.
       destruct (ls_stop st); [inversion H; subst; exists seen; split; [apply incl_refl|split; [intros v0 Hv0; left; exact Hv0|exact Hinv]]|discriminate].
     - destruct (ls_todo st) eqn:Et; [inversion H; subst; exists seen; split; [apply incl_refl|split; [intros v0 Hv0; left; exact Hv0|exact Hinv]]|].
       destruct (ls_stop st); [inversion H; subst; exists seen; split; [apply incl_refl|split; [intros v0 Hv0; left; exact Hv0|exact Hinv]]|].
-      destruct (lssa_iter A eps9 eps7 l dt final t_init V_init u st) as [st1| |w] eqn:E; try discriminate.
+      destruct (lssa_iter A pi2 eps9 eps7 l dt final t_init V_init u st) as [st1| |w] eqn:E; try discriminate.
       destruct (lssa_iter_inv dt final t_init V_init u seen st st1 Hinv E) as (seen1 & Hi1 & Hp1 & Hinv1).
       destruct (IH seen1 st1 st' Hinv1 H) as (seen2 & Hi2 & Hp2 & Hinv2).
       exists seen2. split; [eapply incl_tran; eauto|]. split; [|exact Hinv2].
@@ -108,13 +110,13 @@ Section Structure.
 
   (* whole single-cell simulation *)
   Theorem lssa_rows_ok fuel ts t_cur t_init V V_init x0 u pos st :
-    lssa_simulate A eps9 eps7 fuel l ts t_cur t_init V V_init x0 u pos = Done st ->
+    lssa_simulate A pi2 eps9 eps7 fuel l ts t_cur t_init V V_init x0 u pos = Done st ->
     exists seen, In V seen /\ (forall v, In v seen -> v = V \/ fleb A v (f0 A) = false) /\
                  length (ls_rows st) = length (ls_vols st) /\ Forall2 (row_ok seen) (ls_rows st) (ls_vols st).
   Proof.
     unfold lssa_simulate. destruct ts as [|t0 [|t1 ts']]; try discriminate.
     set (st0 := mkLst t_cur (t0 :: t1 :: ts') x0 (si_params (sm_if s)) true pos [] [] t1 V (-1)%Z (-1)%Z false).
-    destruct (lssa_loop A eps9 eps7 fuel l (fsub A t1 t0) (last (t0 :: t1 :: ts') t0) t_init V_init u st0) as [st1| |w] eqn:E; try discriminate.
+    destruct (lssa_loop A pi2 eps9 eps7 fuel l (fsub A t1 t0) (last (t0 :: t1 :: ts') t0) t_init V_init u st0) as [st1| |w] eqn:E; try discriminate.
     intros H. inversion H; subst; clear H.
     assert (H0 : linv [V] st0).
     { split; [reflexivity|]. split; [left; reflexivity|]. split; [constructor|cbn; discriminate]. }
@@ -128,7 +130,7 @@ End Structure.
 
 (* without rules: the reported rows of a cell are linked by reaction paths from the state it was born with *)
 Section LReach.
-  Context {F : Type} (A : Arith F) (eps9 eps7 : F).
+  Context {F : Type} (A : Arith F) (pi2 : F) (eps9 eps7 : F).
   Variable l : lin F.
   Notation s := (ln_sim l).
   Hypothesis no_rules : sm_rules s = [].
@@ -146,17 +148,19 @@ Section LReach.
   Qed.
 
   Lemma lssa_iter_path dt final t_init V_init u x0 st st' : lpath_inv x0 st ->
-    lssa_iter A eps9 eps7 l dt final t_init V_init u st = Done st' -> lpath_inv x0 st'.
+    lssa_iter A pi2 eps9 eps7 l dt final t_init V_init u st = Done st' -> lpath_inv x0 st'.
   Proof.
     intros [Hc Hr] H. unfold lssa_iter in H.
     destruct (ls_todo st) as [|tnext todo] eqn:Et; [inversion H; subst; split; auto|].
     rewrite no_rules in H. cbn [apply_rules fold_left] in H.
-    destruct (0 <=? first_true (fun r => krule_check A eps9 r (ls_x st) (ls_p st) (ls_time st) (ls_V st)) (ln_krules l) 0)%Z; [inversion H; subst; split; auto|].
-    destruct (0 <=? first_true (fun r => drule_check A eps9 r (ls_x st) (ls_p st) (ls_time st) (ls_V st) t_init V_init) (ln_drules l) 0)%Z; [inversion H; subst; split; auto|].
+    destruct (first_true (fun r => krule_check A pi2 eps9 r (ls_x st) (ls_p st) (ls_time st) (ls_V st) u) (ln_krules l) 0%Z (ls_pos st)) as [dead posa].
+    destruct (first_true (fun r => drule_check A pi2 eps9 r (ls_x st) (ls_p st) (ls_time st) (ls_V st) t_init V_init u) (ln_drules l) 0%Z posa) as [divd posb].
+    destruct (0 <=? dead)%Z; [inversion H; subst; split; auto|].
+    destruct (0 <=? divd)%Z; [inversion H; subst; split; auto|].
     set (props := lin_props A l (ls_x st) (ls_p st) (ls_V st) (ls_time st)) in *.
     set (Lambda := array_sum A props) in *.
-    destruct (if feqb A Lambda (f0 A) then ((if fltb A (fadd A (ls_time st) dt) (ls_next_q st) then ls_next_q st else fadd A (ls_time st) dt), true, ls_pos st)
-              else let '(tau, pos') := exponential_rv A Lambda u (ls_pos st) in (fadd A (ls_time st) tau, false, pos'))
+    destruct (if feqb A Lambda (f0 A) then ((if fltb A (fadd A (ls_time st) dt) (ls_next_q st) then ls_next_q st else fadd A (ls_time st) dt), true, posb)
+              else let '(tau, pos') := exponential_rv A Lambda u posb in (fadd A (ls_time st) tau, false, pos'))
       as [[proposed rs] pos1].
     destruct (if (fltb A (ls_next_q st) proposed || feqb A Lambda (f0 A) && fleb A (ls_next_q st) proposed) && fltb A (ls_next_q st) final
               then (ls_next_q st, fadd A (ls_next_q st) dt, true, true)
@@ -166,7 +170,8 @@ Section LReach.
     destruct (record_rows A _ _ _ _ _ E3) as (_ & k & -> & _ & _).
     destruct (last_reach x0 (ls_rows st) (ls_x st) k Hr Hc) as [Hc' Hr'].
     destruct toq.
-    - match type of H with context [fleb A ?v (f0 A)] => destruct (fleb A v (f0 A)) end; [discriminate|]. inversion H; subst; split; auto.
+    - destruct (apply_volume_rules A pi2 (ln_vrules l) (ls_x st) (ls_p st) (ls_V st) time' dt u pos1) as [V' posv].
+      destruct (fleb A V' (f0 A)); [discriminate|]. inversion H; subst; split; auto.
     - destruct (sample_discrete A props Lambda u pos1) as [choice pos2].
       destruct ((choice <? 0)%Z || (Z.of_nat (length props) <=? choice)%Z) eqn:Eb; [discriminate|].
       destruct (Nat.ltb_spec (Z.to_nat choice) (length (si_props (sm_if s)))) as [Hlt|Hge].
@@ -177,18 +182,18 @@ Section LReach.
   Qed.
 
   Theorem lssa_rows_are_paths fuel ts t_cur t_init V V_init x0 u pos st :
-    lssa_simulate A eps9 eps7 fuel l ts t_cur t_init V V_init x0 u pos = Done st -> chain A s x0 (ls_rows st).
+    lssa_simulate A pi2 eps9 eps7 fuel l ts t_cur t_init V V_init x0 u pos = Done st -> chain A s x0 (ls_rows st).
   Proof.
     unfold lssa_simulate. destruct ts as [|t0 [|t1 ts']]; try discriminate.
     set (st0 := mkLst t_cur (t0 :: t1 :: ts') x0 (si_params (sm_if s)) true pos [] [] t1 V (-1)%Z (-1)%Z false).
     generalize (last (t0 :: t1 :: ts') t0) as fin. generalize (fsub A t1 t0) as dt0. intros dt0 fin.
-    destruct (lssa_loop A eps9 eps7 fuel l dt0 fin t_init V_init u st0) as [st1| |w] eqn:E; try discriminate.
+    destruct (lssa_loop A pi2 eps9 eps7 fuel l dt0 fin t_init V_init u st0) as [st1| |w] eqn:E; try discriminate.
     intros H. inversion H; subst; clear H.
-    assert (G : forall fuel sta stb, lpath_inv x0 sta -> lssa_loop A eps9 eps7 fuel l dt0 fin t_init V_init u sta = Done stb -> lpath_inv x0 stb).
+    assert (G : forall fuel sta stb, lpath_inv x0 sta -> lssa_loop A pi2 eps9 eps7 fuel l dt0 fin t_init V_init u sta = Done stb -> lpath_inv x0 stb).
     { induction fuel0 as [|f IH]; intros sta stb Ha Hl; simpl in Hl.
       - destruct (ls_todo sta); [inversion Hl; subst; auto|]. destruct (ls_stop sta); [inversion Hl; subst; auto|discriminate].
       - destruct (ls_todo sta) eqn:Eta; [inversion Hl; subst; auto|]. destruct (ls_stop sta); [inversion Hl; subst; auto|].
-        destruct (lssa_iter A eps9 eps7 l dt0 fin t_init V_init u sta) as [stc| |w] eqn:Ei; try discriminate.
+        destruct (lssa_iter A pi2 eps9 eps7 l dt0 fin t_init V_init u sta) as [stc| |w] eqn:Ei; try discriminate.
         eapply IH; [|exact Hl]. eapply lssa_iter_path; eauto. }
     assert (H0 : lpath_inv x0 st0) by (split; cbn; auto; apply reachable_refl).
     destruct (G fuel st0 st1 H0 E) as [Hc Hr].
@@ -201,11 +206,11 @@ End LReach.
 
 (* over the reals: every reported volume is positive when the cell starts with a positive volume *)
 Local Open Scope R_scope.
-Theorem lssa_volumes_positive (l : lin R) eps9 eps7 fuel ts t_cur t_init V V_init x0 u pos st : 0 < V ->
-  lssa_simulate ArithR eps9 eps7 fuel l ts t_cur t_init V V_init x0 u pos = Done st ->
+Theorem lssa_volumes_positive (l : lin R) pi2 eps9 eps7 fuel ts t_cur t_init V V_init x0 u pos st : 0 < V ->
+  lssa_simulate ArithR pi2 eps9 eps7 fuel l ts t_cur t_init V V_init x0 u pos = Done st ->
   Forall (fun v => 0 < v) (ls_vols st) /\ length (ls_rows st) = length (ls_vols st).
 Proof.
-  intros HV H. destruct (lssa_rows_ok ArithR eps9 eps7 l fuel ts t_cur t_init V V_init x0 u pos st H) as (seen & _ & Hp & Hlen & Hrows).
+  intros HV H. destruct (lssa_rows_ok ArithR pi2 eps9 eps7 l fuel ts t_cur t_init V V_init x0 u pos st H) as (seen & _ & Hp & Hlen & Hrows).
   split; [|exact Hlen]. clear -HV Hp Hrows. induction Hrows as [|row v rows vols [Hin _] _ IH]; constructor; auto.
   destruct (Hp v Hin) as [->|Hf]; [exact HV|]. change (fleb ArithR v (f0 ArithR)) with (Rleb v 0) in Hf. apply Rleb_false in Hf. exact Hf.
 Qed.
